@@ -83,6 +83,10 @@ func (c *cluster) nodeByHost(h string) *simNode { return c.nodes[idOfHost(h)] }
 // onWireMsg runs with simNet.mu held on the goroutine that wrote the message.
 func (c *cluster) onWireMsg(m *streamMon, w *wireMsg) {
 	l := c.led
+	if c.blackbox {
+		c.stats.class("wire-" + w.kind)
+		return
+	}
 	if c.traceOn {
 		if w.dir == 0 {
 			c.tracef("  wire %s %s term=%d src=%d %+v", w.conn, w.kind, w.req.getTerm(), w.req.from(), w.req)
@@ -118,11 +122,24 @@ func (c *cluster) onWireMsg(m *streamMon, w *wireMsg) {
 	if dst == nil {
 		return
 	}
+	defer func() { c.respInStep[dst.id]++ }()
 	c.noteReportedTerm(dst, w.conn, w.resp.getTerm(), w.kind)
 	switch rq := w.req.(type) {
 	case *voteReq:
 		res := w.resp.getResult()
 		c.stats.class("wire-voteResp-" + resultName(res))
+		// C17 stability: a follower that believed in leader L before this (time-frozen,
+		// delivery-only) step and still does must refuse a request without transfer
+		// permission from anybody else, without moving its term
+		if !rq.transfer && c.deliveryStep && !c.blackbox && dst.sh != nil && dst.r != nil {
+			if l0 := dst.sh.leader; l0 != 0 && l0 != rq.src && l0 != dst.id && dst.r.leader == l0 && dst.sh.state == Follower {
+				c.stats.class("stability-judged")
+				first := c.respInStep[dst.id] == 0 // nothing else was answered by this node in this step
+				if res != leaderKnown || (first && w.resp.getTerm() != dst.sh.term) {
+					c.fail("stability", "disruptive-vote-request-honoured", "follower %d (term %d, following leader %d) answered a vote request without transfer permission from node %d (term %d) with %s and term %d", dst.id, dst.sh.term, l0, rq.src, rq.term, resultName(res), w.resp.getTerm())
+				}
+			}
+		}
 		if res == success {
 			key := [2]uint64{dst.id, rq.term}
 			if prev, ok := l.votes[key]; ok && prev != rq.src {
@@ -146,10 +163,13 @@ func (c *cluster) onWireMsg(m *streamMon, w *wireMsg) {
 			if lastIdx > l.ackedIdx[dst.id] {
 				l.ackedIdx[dst.id] = lastIdx
 			}
-			if len(w.reqMsg.entries) > 0 {
-				l.raiseFloor(dst.id, lastIdx)
+			// a success reply acknowledges everything up to prevLogIndex+n as stored,
+			// also when the request carried no entries (matching heartbeat)
+			l.raiseFloor(dst.id, lastIdx)
+			if len(w.reqMsg.entries) == 0 {
+				c.stats.class("wire-heartbeat-ack")
 			}
-			if len(w.reqMsg.entries) > 0 && dst.dir != "" {
+			if dst.dir != "" {
 				c.stats.class("wire-append-ack")
 				_, dlast, ok := durableLog(dst.dir)
 				snap := latestSnapOnDisk(dst.dir)
